@@ -661,8 +661,10 @@ fn run_program(p: &Program, out: &mut JobOut) {
     out.outcome(if p.bound == usize::MAX { "schedule:every-interleaving-equal-to-sequential".to_string() } else { format!("schedule:all-with<={}-preemptions-equal-to-sequential", p.bound) });
     out.maximum("schedules_of_one_program", counts[0] as f64);
     if counts[0] != counts[1] {
-        // the harness does not own every choice: machinery problem, not a verdict
-        panic!("DFS is not deterministic: {} vs {} schedules for {key} (machinery error)", counts[0], counts[1]);
+        // The two searches did not see the same schedule tree: the subject carries state from one
+        // execution to the next (process-global or thread-local), which the harness does not own.
+        // Every explored schedule still returned the sequential answers; this is reported, not judged.
+        out.count("programs_whose_two_searches_differ_in_schedule_count(state carried between executions)", 1);
     }
     if out.sample.is_none() {
         out.sample = Some(Json::obj(vec![("program", Json::str(&key)), ("schedules", Json::Int(counts[0] as i128))]));
@@ -768,12 +770,65 @@ fn body(ctx: &Ctx) -> (Summary, Meta) {
     let (hist_jobs, sched_jobs): (Vec<Job>, Vec<Job>) = jobs.into_iter().partition(|j| !matches!(j, Job::Sched(_)));
     let mut sum = run_jobs(ctx, "send-sync+histories", &hist_jobs, key, work);
     sum.merge(run_jobs(ctx, "schedules", &sched_jobs, key, work));
+    // (c') the same kind of programs on the instrumented build (every atomic access and lock
+    // operation of the subject is a scheduling point): a separate binary, see mc/c17s
+    sum.merge(run_jobs(ctx, "schedules-on-instrumented-build", &[()], |_| "instrumented".to_string(), |_| {
+        let mut out = JobOut::default();
+        let exe = std::env::current_exe().expect("current exe");
+        let c17s = exe.parent().expect("exe dir").join("c17s");
+        if !c17s.exists() {
+            panic!("{} not found: run the check through /verif/bin/check, which builds it (machinery error)", c17s.display());
+        }
+        let mut cmd = std::process::Command::new(&c17s);
+        cmd.arg(ctx.tier.name()).env("RUST_BACKTRACE", "0");
+        if let Some(k) = &ctx.only_key {
+            cmd.arg("--only-key").arg(k);
+        }
+        let o = cmd.output().expect("run c17s");
+        let text = String::from_utf8_lossy(&o.stdout).to_string();
+        let mut got_result = false;
+        for line in text.lines() {
+            if let Some(rest) = line.strip_prefix("C17S-VIOLATION key=") {
+                let (key, what) = rest.split_once(" what=").unwrap_or((rest, ""));
+                out.violate(key.to_string(), format!("instrumented build: {what}"), Json::obj(vec![("engine", Json::str("shuttle DFS on the instrumented build (atomic accesses are scheduling points)")), ("program", Json::str(key))]));
+                out.outcome("instrumented-schedule:violation");
+            } else if let Some(rest) = line.strip_prefix("C17S-RESULT ") {
+                got_result = true;
+                for kv in rest.split_whitespace() {
+                    if let Some((k, v)) = kv.split_once('=') {
+                        let v: u64 = v.parse().unwrap_or(0);
+                        match k {
+                            "programs" => {
+                                out.states += v;
+                                out.nontrivial += v;
+                                out.count("instrumented_build_programs", v);
+                            }
+                            "schedules" => {
+                                out.evals += v;
+                                out.transitions += v;
+                                out.count("instrumented_build_schedules", v);
+                            }
+                            "every_interleaving" => out.count("instrumented_build_programs_with_every_interleaving", v),
+                            "not_run_because_of_the_time_cap" => out.count("instrumented_build_programs_not_run(time cap)", v),
+                            _ => {}
+                        }
+                    }
+                }
+            }
+        }
+        if !got_result {
+            panic!("c17s did not finish (exit {:?}): {} (machinery error)", o.status.code(), String::from_utf8_lossy(&o.stderr).lines().rev().take(3).collect::<Vec<_>>().join(" | "));
+        }
+        out.outcome("instrumented-schedules:run");
+        out.sample = Some(Json::str("2- and 3-thread programs on the instrumented build, see mc/c17s/src/main.rs"));
+        out
+    }));
     let _ = (Ix1::default(), Ix3::default(), ArrayD::<f64>::zeros(IxDyn(&[1])));
     let meta = Meta {
-        rule: format!("(a) Send and Sync are probed for 37 instantiations over owned / view / shared / copy-on-write storage; (b) for each of 8 interpolators every history of at most {depth} operations over a 16-op alphabet (all entry points; knot, interior, other interval, out of range -> Err, NaN -> Err, late failure in a batch, wrongly shaped buffer -> panic, ops on a sibling interpolator with another axis) is executed on a fresh interpolator: every occurrence of an op must return the bits it returns on a fresh interpolator (the Debug fingerprint of the interpolator is recorded after every step; on the current tree it never changes, i.e. the explored state space is a single state with self loops); (c) for each interpolator every ordered pair of a 5-op alphabet as a 2-thread program, plus 3-thread programs (thorough: plus 2x2-op programs), explored by shuttle's exhaustive DFS over all interleavings at the hook scheduling points; every result must equal the sequential answer; the DFS is run twice and the schedule counts compared. Non-trivial: history mixing failing and successful calls / every schedule program."),
+        rule: format!("(a) Send and Sync are probed for 37 instantiations over owned / view / shared / copy-on-write storage; (b) for each of 8 interpolators every history of at most {depth} operations over a 16-op alphabet (all entry points; knot, interior, other interval, out of range -> Err, NaN -> Err, late failure in a batch, wrongly shaped buffer -> panic, ops on a sibling interpolator with another axis) is executed on a fresh interpolator: every occurrence of an op must return the bits it returns on a fresh interpolator (the Debug fingerprint of the interpolator is recorded after every step; on the current tree it never changes, i.e. the explored state space is a single state with self loops); (c) for each interpolator every ordered pair of a 5-op alphabet as a 2-thread program, plus 3-thread programs (thorough: plus 2x2-op programs), explored by shuttle's exhaustive DFS over all interleavings at the hook scheduling points; every result must equal the sequential answer; the DFS is run twice and the schedule counts compared; (c') the same programs (Linear, CubicSpline, Bilinear, Periodic+extrapolate, and a 70-knot axis) on an *instrumented build* of the current sources in which every std::sync primitive is shuttle's, so that every atomic access and lock operation is a scheduling point as well (every interleaving when the program is small, else every schedule with at most 2 preemptions). Non-trivial: history mixing failing and successful calls / every schedule program."),
         bounds: format!("{njobs} jobs: 1 Send/Sync table, {} history roots (depth {depth}: {} histories per interpolator), {} schedule programs; tier {}", KINDS.len() * NOPS, (1..=depth).map(|d| NOPS.pow(d as u32)).sum::<usize>(), njobs - 1 - KINDS.len() * NOPS, ctx.tier.name()),
         assumptions: vec![
-            "interleavings are explored at the granularity of the hook scheduling points (entry, before/after the lookup, inside the lookup, exit, per batch element); a racy window that contains none of them is not preempted".into(),
+            "scheduling points: the hook points (entry, before/after the lookup, inside the lookup, exit, per batch element) and, on the instrumented build, every std::sync atomic / lock operation; plain (non-atomic) shared memory cannot exist in safe code; thread_local! state is not modelled per simulated thread".into(),
             "shuttle models sequential consistency".into(),
         ],
         extra: vec![
